@@ -49,18 +49,6 @@ pub proof fn lemma_push_witness(l: Seq<CharSet>, w: int, c: CharSet)
     }
 }
 
-pub open spec fn cl_covered_by(l: Seq<CharSet>, set: CharSet, i: int) -> bool {
-    forall|x: int| cs_has(set, x) ==> cs_has(l[i], x)
-}
-
-pub open spec fn cl_covered_by_some(l: Seq<CharSet>, set: CharSet) -> bool {
-    exists|i: int| 0 <= i < l.len() && (forall|x: int| cs_has(set, x) ==> cs_has(#[trigger] l[i], x))
-}
-
-pub open spec fn cl_disjoint_all(l: Seq<CharSet>, set: CharSet) -> bool {
-    forall|x: int| cs_has(set, x) ==> !cl_in(l, x)
-}
-
 // no interval of a sorted list contains x when x lies strictly between l[i].end and the next start
 pub proof fn lemma_gap(l: Seq<CharSet>, i: int, x: int)
     requires cp_sorted(l), -1 <= i < l.len(),
@@ -121,7 +109,7 @@ pub proof fn lemma_interval_cover(l: Seq<CharSet>, set: CharSet, i: int)
             assert(cs_has(set, a_i) && cs_has(l[i], a_i));
             assert(cl_in(l, a_i));
             if cl_covered_by_some(l, set) {
-                let k = choose|k: int| 0 <= k < l.len() && (forall|x: int| cs_has(set, x) ==> cs_has(#[trigger] l[k], x));
+                let k = choose|k: int| 0 <= k < l.len() && #[trigger] cl_covered_by(l, set, k);
                 assert(cs_has(l[k], a));
             }
         }
@@ -130,7 +118,7 @@ pub proof fn lemma_interval_cover(l: Seq<CharSet>, set: CharSet, i: int)
         assert(cl_in(l, a));
         if b > b_i {
             if cl_covered_by_some(l, set) {
-                let k = choose|k: int| 0 <= k < l.len() && (forall|x: int| cs_has(set, x) ==> cs_has(#[trigger] l[k], x));
+                let k = choose|k: int| 0 <= k < l.len() && #[trigger] cl_covered_by(l, set, k);
                 assert(cs_has(l[k], a) && cs_has(l[k], b));
                 if k < i { assert(l[k].end < l[i].start); }
                 if k > i { assert(l[i].end < l[k].start); }
@@ -146,7 +134,7 @@ pub proof fn lemma_interval_cover(l: Seq<CharSet>, set: CharSet, i: int)
                 assert(cs_has(set, next) && cs_has(l[i + 1], next));
                 assert(cl_in(l, next));
                 if cl_covered_by_some(l, set) {
-                    let k = choose|k: int| 0 <= k < l.len() && (forall|x: int| cs_has(set, x) ==> cs_has(#[trigger] l[k], x));
+                    let k = choose|k: int| 0 <= k < l.len() && #[trigger] cl_covered_by(l, set, k);
                     assert(cs_has(l[k], a));
                     assert(cl_in(l, a));
                 }
